@@ -37,6 +37,7 @@ func c04(c *Ctx) {
 	c04writer(c)
 	c04zrpcServer(c)
 	c04zrpcClient(c)
+	c04clientInstallsTimeout(c)
 	c04fx(c)
 	c04engine(c)
 	c04serverDeadline(c)
@@ -1251,4 +1252,52 @@ func c04writerNoUserCodeUnderLock(c *Ctx, named *types.Named) {
 		})
 	}
 	c.R.Min(rule, 5, "exported methods of timeoutWriter")
+}
+
+// c04clientInstallsTimeout (C04.R1f, round 7): the client-side TimeoutInterceptor is also what interprets a per-call
+// WithCallTimeout (a grpc.EmptyCallOption nobody else reads). Whether it is installed is decided by the middleware
+// switch alone: on every path of (*client).buildUnaryInterceptors on which `middlewares.Timeout` was seen true, the
+// interceptor is built from the configured timeout and appended to the returned chain — whatever that timeout's value.
+// "Skip the pass-through interceptor when the default timeout is 0" silently drops every per-call deadline.
+func c04clientInstallsTimeout(c *Ctx) {
+	rule := "C04.R1f"
+	pkg := "zrpc/internal"
+	f := c.fn(rule, pkg, "(*client).buildUnaryInterceptors")
+	if f == nil {
+		return
+	}
+	ti := calleeIs("zrpc/internal/clientinterceptors.TimeoutInterceptor")
+	ps := c.paths(rule, f, px.Config{})
+	sawSwitch := false
+	c.forall(rule, pkg+".(*client).buildUnaryInterceptors#timeout", "whenever the Timeout middleware switch is on, the TimeoutInterceptor (which also applies per-call WithCallTimeout) is built from the configured timeout and is part of the returned chain — for every value of that timeout", f, ps, func(p *px.Path) (bool, string) {
+		if p.Exit != px.ExitReturn {
+			return true, ""
+		}
+		on := false
+		for _, b := range p.All(px.KindIs(px.EvBranch)) {
+			if fieldLoadDeep(b.Cond, "Timeout", nil) {
+				sawSwitch = true
+				if b.Taken {
+					on = true
+				}
+			}
+		}
+		calls := p.All(ti)
+		if !on {
+			return true, ""
+		}
+		if len(calls) != 1 {
+			return false, fmt.Sprintf("the Timeout switch is on but TimeoutInterceptor is built ×%d on this path: per-call WithCallTimeout deadlines are interpreted by nobody", len(calls))
+		}
+		if len(f.Params) > 1 && !isParam(calls[0].Call.Args[0], f.Params[1]) {
+			return false, "the interceptor is not built from the configured timeout"
+		}
+		if len(p.Results) == 0 || !dependsOn(p, p.Results[0], calls[0].Res) {
+			return false, "the interceptor is built but not part of the returned chain"
+		}
+		return true, ""
+	})
+	if !sawSwitch {
+		c.R.Undecided(rule, pkg+".(*client).buildUnaryInterceptors#switch", "the middleware switch for the timeout interceptor is recognised", "no branch on middlewares.Timeout")
+	}
 }
